@@ -33,6 +33,8 @@ type Frame struct {
 	curBlock *ssa.BasicBlock
 	seqCtr   int
 	callCount map[string]int
+	parent   *Frame    // the frame this one is inlined into (nil for the root)
+	via      *ssa.Call // the call instruction in parent that is being inlined
 }
 
 var autoRangeInv, _ = ParseSpec("-1 <= rangeindex && rangeindex <= 1099511627776")
